@@ -364,9 +364,11 @@ func notifyNameChange(pn *pathNode) {
 func (f *fidRef) renameChildTo(oldName string, target *fidRef, newName string) {
 	target.markChildDeleted(newName)
 	origPathNode := f.pathNode.removeWithName(oldName, func(ref *fidRef) {
-		// N.B. DecRef can take f.pathNode's parent's childMu. This is
-		// allowed because renameMu is held for write via safelyGlobal.
-		ref.parent.DecRef() // Drop original reference.
+		// The reference is re-parented and listed under its new name
+		// before anything calls into the backend (Renamed, and Close
+		// if the old parent goes away): should the backend panic, the
+		// reference is still found where its file now is.
+		oldParent := ref.parent
 		ref.parent = target // Change parent.
 		ref.parent.IncRef() // Acquire new one.
 		if f.pathNode == target.pathNode {
@@ -374,6 +376,9 @@ func (f *fidRef) renameChildTo(oldName string, target *fidRef, newName string) {
 		} else {
 			target.pathNode.addChild(ref, newName)
 		}
+		// N.B. DecRef can take f.pathNode's parent's childMu. This is
+		// allowed because renameMu is held for write via safelyGlobal.
+		defer oldParent.DecRef() // Drop original reference.
 		ref.file.Renamed(target.file, newName)
 	})
 
